@@ -6,7 +6,7 @@ from common import (calls_to, callee, closure_creations, closure_consumer, field
 PROP = "C14"
 LEVEL = "other"
 UNDECIDED = [
-    "the grammar as a function from strings to atoms: whitespace splitting, escape handling inside Atom::new_inner, in particular agreement of its ASCII and non-ASCII halves on backslashes",
+    "the grammar as a function from strings to atoms: escape handling inside Atom::new_inner, in particular agreement of its ASCII and non-ASCII halves on backslashes (the word splitter's decision table IS decided)",
     "smart-case / smart-normalization decisions for all strings",
 ]
 ASSUMPTIONS = [
@@ -360,6 +360,170 @@ def rule_marker_table(ctx):
         ctx.violation(PARSE + "|new_inner-args|1", site(fn, ni[0]), "new_inner called with escape_whitespace=%s append_dollar=%s" % (esc, show(ad)))
 
 
+
+# ---------------------------------------------------------------- word splitting
+
+class _Bail(Exception):
+    pass
+
+
+def eval_split_closure(fn, ws, bs, saw):
+    """Evaluate the split predicate abstractly for one point of the finite domain
+    (c is whitespace?, c is a backslash?, state flag) -> (split?, new state flag)."""
+    C = ("c",)
+    env = {2: C}
+    state = {}
+    cap_fields = [c["name"] for c in fn.b.get("captures", [])]
+    if len(cap_fields) != 1:
+        raise _Bail("expected exactly one captured state flag, found %s" % cap_fields)
+    state[cap_fields[0]] = saw
+
+    def place_val(p):
+        if p["l"] == 1 and p["p"]:
+            for el in p["p"]:
+                if isinstance(el, dict) and "f" in el:
+                    return state.get(el["name"])
+            raise _Bail("unknown capture access")
+        v = env.get(p["l"], "undef")
+        if v == "undef":
+            raise _Bail("read of unassigned local _%d" % p["l"])
+        if any(el == "deref" for el in p["p"]):
+            if isinstance(v, tuple) and v[0] == "ref":
+                v = v[1]
+        return v
+
+    def op_val(o):
+        if "const" in o:
+            v = o["const"].get("val")
+            if isinstance(v, bool):
+                return v
+            if isinstance(v, int):
+                return v
+            return ("unit",)
+        return place_val(o.get("copy") or o.get("move"))
+
+    bb = 0
+    steps = 0
+    while True:
+        steps += 1
+        if steps > 200:
+            raise _Bail("no termination")
+        blk = fn.blocks[bb]
+        for st in blk["stmts"]:
+            if st["k"] != "assign":
+                continue
+            rv = st["rv"]
+            if "use" in rv:
+                v = op_val(rv["use"])
+            elif "ref" in rv:
+                v = ("ref", place_val(rv["ref"]))
+            elif "un" in rv and rv["un"] == "Not":
+                a = op_val(rv["a"])
+                if not isinstance(a, bool):
+                    raise _Bail("Not of a non-boolean")
+                v = not a
+            elif "bin" in rv and rv["bin"] in ("Eq", "Ne", "BitAnd", "BitOr"):
+                a, b = op_val(rv["a"]), op_val(rv["b"])
+                if rv["bin"] in ("Eq", "Ne") and (a == C or b == C):
+                    k = b if a == C else a
+                    if k == 92:
+                        v = bs
+                    elif isinstance(k, int) and k in (32, 9, 10, 13):
+                        v = ws and False if False else None
+                    else:
+                        v = False if bs or ws else None
+                    if v is None:
+                        raise _Bail("comparison of c with %s" % k)
+                    if rv["bin"] == "Ne":
+                        v = not v
+                elif isinstance(a, bool) and isinstance(b, bool):
+                    v = {"Eq": a == b, "Ne": a != b, "BitAnd": a and b, "BitOr": a or b}[rv["bin"]]
+                else:
+                    raise _Bail("unsupported comparison")
+            elif "agg" in rv and rv["agg"] == "tuple" and not rv["ops"]:
+                v = ("unit",)
+            else:
+                raise _Bail("unsupported statement %s" % str(rv)[:60])
+            lhs = st["lhs"]
+            if lhs["l"] == 1 and lhs["p"]:
+                for el in lhs["p"]:
+                    if isinstance(el, dict) and "f" in el:
+                        if not isinstance(v, bool):
+                            raise _Bail("state flag assigned a non-boolean")
+                        state[el["name"]] = v
+            elif lhs["p"]:
+                raise _Bail("projected assignment")
+            else:
+                env[lhs["l"]] = v
+        t = blk["term"]
+        if t["k"] == "goto":
+            bb = t["target"]
+        elif t["k"] == "return":
+            r = env.get(0)
+            if not isinstance(r, bool):
+                raise _Bail("predicate does not return a boolean")
+            return r, state[cap_fields[0]]
+        elif t["k"] == "call":
+            c = callee(t)
+            if c.endswith("char>::is_whitespace") and op_val(t["args"][0]) == C:
+                env[t["dest"]["l"]] = ws
+                bb = t["target"]
+            else:
+                raise _Bail("call of %s" % c)
+        elif t["k"] == "switch":
+            d = op_val(t["discr"])
+            if d == C:
+                arms = {v: b_ for v, b_ in t["arms"]}
+                if set(arms) == {92}:
+                    bb = arms[92] if bs else t["otherwise"]
+                else:
+                    raise _Bail("match on c with arms %s" % sorted(arms))
+            elif isinstance(d, bool):
+                tgt = None
+                for v, b_ in t["arms"]:
+                    if v == int(d):
+                        tgt = b_
+                bb = tgt if tgt is not None else t["otherwise"]
+            else:
+                raise _Bail("switch on %s" % str(d))
+        else:
+            raise _Bail("terminator %s" % t["k"])
+
+
+def rule_split_table(ctx):
+    """pattern_atoms splits at whitespace that is not preceded by a backslash; a backslash always
+    escapes the next character (the atom constructor turns every `\\ ` into a space and keeps
+    every other backslash). Decision table of the split predicate over its finite domain."""
+    facts = ctx.facts
+    pa = get_fn(facts, M, "pattern::pattern_atoms")
+    sp = [(bi, t) for bi, t in pa.calls(lambda t: callee(t).endswith("str>::split"))]
+    if len(sp) != 1:
+        raise Inconclusive("pattern_atoms is not a single str::split")
+    clo = pa.expr_of_operand(sp[0][1]["args"][1])
+    if clo[0] != "closure":
+        raise Inconclusive("split predicate is not a closure literal")
+    init = list(clo[2].values())
+    if len(init) != 1 or not (init[0][0] == "const" and init[0][1] == 0):
+        ctx.violation("pattern::pattern_atoms|initial-state|1", site(pa, sp[0][0]), "the escape state does not start as `not escaped`")
+    cf = get_fn(facts, M, clo[1])
+    n = 0
+    for ws, bs in ((True, False), (False, True), (False, False)):
+        for saw in (False, True):
+            try:
+                got = eval_split_closure(cf, ws, bs, saw)
+            except _Bail as e:
+                raise Inconclusive("split predicate is not a decision table over (is_whitespace, is backslash, state): %s" % e)
+            want = (True, False) if (ws and not saw) else (False, bs)
+            n += 1
+            what = "c is %s, previous character %s a backslash" % ("whitespace" if ws else ("a backslash" if bs else "any other character"), "was" if saw else "was not")
+            if got == want:
+                ctx.ok(site(cf, 0), "%s ⇒ split=%s, escaping-next=%s" % (what, got[0], got[1]))
+            else:
+                ctx.violation("pattern::pattern_atoms|split-table|%d%d%d" % (ws, bs, saw), site(cf, 0),
+                              "%s: the splitter answers (split=%s, next character escaped=%s), the grammar says (split=%s, escaped=%s) — the word splitter and the atom constructor (which unescapes every `\\ `) disagree about which spaces are literal" % (what, got[0], got[1], want[0], want[1]))
+    ctx.floor("split decision table points", n, 6)
+
+
 def rule_case_source(ctx):
     """ignore_case flag: Ignore ⇒ true, Respect ⇒ false, Smart ⇒ no upper-case char; Ignore folds the needle."""
     facts = ctx.facts
@@ -390,4 +554,5 @@ def rules(ctx):
     ctx.run_rule("C14.parse-twins", rule_parse_twins)
     ctx.run_rule("C14.new-is-literal", rule_new_is_literal)
     ctx.run_rule("C14.marker-table", rule_marker_table)
+    ctx.run_rule("C14.split-table", rule_split_table)
     ctx.run_rule("C14.case-source", rule_case_source)
